@@ -141,7 +141,8 @@ def rule_pure_observers(ctx, only_timestamps=False):
                         if not ok:
                             path = prog.call_path(o, lambda y: y == x)
                             from .roles import _FALLBACK, named as _nm
-                            alias = next((k for k in _FALLBACK if _nm(ctx, k) == x), x)
+                            xf = x.split('::{closure')[0]   # a removal moved into a closure is still the enclosing function's removal
+                            alias = next((k for k in _FALLBACK if _nm(ctx, k) == xf), xf)
                             r.violate(o, 'map-removal-not-expiry', alias, 'observer %s can remove a map entry that is not expired (in %s): '
                                       'a later lookup/iteration can observe the difference' % (o.split('::')[-1], x),
                                       where=ctx.where(x, line), path=path, expected='removals reachable from an observer are dominated by the expiry predicate')
@@ -403,7 +404,11 @@ def rule_sketch_structure(ctx):
         wr = [e for e in p.events if e[0] == 'write' and isinstance(e[1], tuple) and e[1][0] == 'fld' and e[1][2] == 'table']
         if not wr:
             continue
-        grows = any(isinstance(c, tuple) and c[0] == 'cmp' and c[1] == 'le' and v is False and any(isinstance(x, tuple) and x and x[0] == 'len' or (isinstance(x, tuple) and x and x[0] == 'call' and str(x[1]).endswith('::len')) for x in subterms(c[3]))
+        def _is_len(t_):
+            return any(isinstance(x, tuple) and x and x[0] == 'len' or (isinstance(x, tuple) and x and x[0] == 'call' and str(x[1]).endswith('::len')) for x in subterms(t_))
+        # `current length < new size` established: !(new <= len) or (len < new)
+        grows = any(isinstance(c, tuple) and c[0] == 'cmp' and ((c[1] == 'le' and v is False and _is_len(c[3]) and not _is_len(c[2])) or
+                                                                (c[1] == 'lt' and v is True and _is_len(c[2]) and not _is_len(c[3])))
                     for c, v in p.conds)
         r.instance(function=ens.nid, reallocates=True, only_when_growing=grows)
         if not grows:
